@@ -192,6 +192,23 @@ impl<T: Serialize> Serialize for ArcRecursivePayload<'_, T> {
     }
 }
 
+// Recursive strong payload: like the weak one, locks only when the value is actually serialized,
+// but an uninitialized value is an error.
+struct ArcRecursiveStrongPayload<'a, T>(&'a Arc<Mutex<Option<T>>>);
+
+impl<T: Serialize> Serialize for ArcRecursiveStrongPayload<'_, T> {
+    fn serialize<S: Serializer>(&self, s: S) -> std::result::Result<S::Ok, S::Error> {
+        let guard = self
+            .0
+            .lock()
+            .map_err(|_| ser::Error::custom("recursive Arc anchor mutex poisoned"))?;
+        let value = guard
+            .as_ref()
+            .ok_or_else(|| ser::Error::custom("recursive Arc anchor not initialized"))?;
+        value.serialize(s)
+    }
+}
+
 // Flow hints and block-string hints: we use newtype-struct names.
 const NAME_TUPLE_ANCHOR: &str = "__yaml_anchor";
 const NAME_TUPLE_WEAK: &str = "__yaml_weak_anchor";
@@ -238,14 +255,10 @@ impl<T: Serialize> Serialize for ArcRecursive<T> {
         let mut ts = s.serialize_tuple_struct(NAME_TUPLE_ANCHOR, 2)?;
         let ptr = Arc::as_ptr(&self.0) as usize;
         ts.serialize_field(&ptr)?;
-        let guard = self
-            .0
-            .lock()
-            .map_err(|_| ser::Error::custom("recursive Arc anchor mutex poisoned"))?;
-        let value = guard
-            .as_ref()
-            .ok_or_else(|| ser::Error::custom("recursive Arc anchor not initialized"))?;
-        ts.serialize_field(value)?;
+        // The mutex must only be taken when the value is really written (first sight). When this
+        // is a further reference to a node whose definition is being written right now, an alias
+        // is emitted and the lock, still held by that definition, must not be touched.
+        ts.serialize_field(&ArcRecursiveStrongPayload(&self.0))?;
         ts.end()
     }
 }
